@@ -46,7 +46,16 @@ import (
 
 func init() {
 	p := props["c08"]
-	g, r := p.Gen, p.Run
+	g, r, su := p.Gen, p.Run, p.Setup
+	p.Setup = func() {
+		if su != nil {
+			su()
+		}
+		// One hook set for the whole process. The Event hook must never be switched on or off while
+		// goroutines of earlier cases may still be between verifEnter and verifLeave (both test
+		// "Event != nil" separately: a switch in between leaves the recorder mutex locked for good).
+		erpc.VerifSetHooks(&erpc.VerifHooks{Gate: c08Gate, Dial: c08pDial.dial, Event: c08pEvent})
+	}
 	p.Gen = func(rr *hx.R, tier string, out *hx.Out) []string {
 		ls := g(rr, tier, out)
 		n := 48
@@ -107,12 +116,36 @@ func c08pCase(r *hx.R, i int) string {
 		}
 	}
 	parts = append(parts, "pcl")
+	if n > 1 && r.Intn(3) == 0 {
+		// one session runs to the end of its Close() while the handlers of the others stay held:
+		// Peer.Close must still be waiting (a join that stops early returns here, with handlers running)
+		si := 1 + r.Intn(n)
+		for rep := 0; rep < 5; rep++ {
+			parts = append(parts, c08pFinish(si, szs[si-1].nin, szs[si-1].nout)...)
+		}
+	}
 	for rounds := r.Intn(4); rounds > 0; rounds-- {
 		si := 1 + r.Intn(n)
 		parts = append(parts, c08Cont(r, si, szs[si-1].nin, szs[si-1].nout, r.Intn(10), false)...)
 	}
 	parts = append(parts, "DRAIN")
 	return fmt.Sprintf("c08p roles=%s late=%s sched=%s", roles, late, strings.Join(parts, ","))
+}
+
+// c08pFinish is one canonical release pass over session si only (the tokens of c08Sess.passToks).
+func c08pFinish(si, nin, nout int) []string {
+	t := []string{fmt.Sprintf("%d.cc", si), fmt.Sprintf("%d.rm", si), fmt.Sprintf("%d.ra", si)}
+	for k := 1; k <= nin; k++ {
+		for _, b := range []string{"en", "bd", "ex", "fw"} {
+			t = append(t, fmt.Sprintf("%d.%s%d", si, b, k))
+		}
+	}
+	for j := 1; j <= nout; j++ {
+		for _, b := range []string{"oa", "ob", "oc", "pr", "rd"} {
+			t = append(t, fmt.Sprintf("%d.%s%d", si, b, j))
+		}
+	}
+	return append(t, fmt.Sprintf("%d.cc", si))
 }
 
 // ---- the late connection ------------------------------------------------------------------------
@@ -208,6 +241,8 @@ type c08pDialer struct {
 	conns map[string]net.Conn
 }
 
+var c08pDial = &c08pDialer{conns: map[string]net.Conn{}}
+
 func (d *c08pDialer) dial(network, addr string) (net.Conn, error) {
 	d.mu.Lock()
 	defer d.mu.Unlock()
@@ -239,9 +274,7 @@ func c08pRun(line string, out *hx.Out) (obs string, nontrivial bool) {
 	late := &c08pLate{mode: mode, hookCh: make(chan struct{}), hubCh: make(chan struct{}), bodyCh: make(chan struct{})}
 	c08pCur.Store(late)
 	defer c08pCur.Store((*c08pLate)(nil))
-	dialer := &c08pDialer{conns: map[string]net.Conn{}}
-	erpc.VerifSetHooks(&erpc.VerifHooks{Gate: c08Gate, Dial: dialer.dial, Event: c08pEvent})
-	defer erpc.VerifSetHooks(&erpc.VerifHooks{Gate: c08Gate})
+	dialer := c08pDial
 
 	A := erpc.NewPeer(erpc.PeerConfig{}, c08pPlugin{})
 	B := erpc.NewPeer(erpc.PeerConfig{})
